@@ -28,7 +28,8 @@ META = {
         'input yields None/[], single selects the first grid, bytes are decoded with the given charset before any '
         'regex.  (D4) the version sniffing regex accepts every header the grammar accepts and the grammar is selected '
         'through Version.nearest.  (D5) a timestamp with a zone name is converted with astimezone (the written instant is kept; clause shared with C17.D2); (D3) also: every rebinding of the document text in parser.parse is the decode or a tabled framing step, never a rewrite of the text (normalisation, replace, splitlines).  Not decided: values computed by float/strptime/iso8601/tz conversion; PEG '
-        'commitment effects beyond D2 (the regular abstraction can miss, never invent, a spec-vs-reader failure).'),
+        'commitment effects beyond D2 (the regular abstraction can miss, never invent, a spec-vs-reader failure).'
+        ' Also (D5): the handler around the zone look-up catches what zoneinfo.timezone raises for a name this host cannot map (the stamp is kept, the document is not rejected).'),
     'rule_text': 'obligations = spec kinds x versions (inclusion + tie hazards), structure inclusion, action facts, '
                  'escape table rows, framing facts',
     'trusted_base': ['spec/zinc_spec.json transcribes the published grammar; pyparsing Or = longest match'],
@@ -59,7 +60,7 @@ def run(ctx):
     # timestamps with a zone name denote the written instant (clause shared with C17.D2)
     from . import c17
     c17._api(ctx, ctx.model, rule='C03.D5', only=('zincparser',))
-    c17.zone_applied(ctx, ctx.model, 'C03.D5', 'zincparser', '_parse_datetime', 'zinc')
+    c17.zone_applied(ctx, ctx.model, 'C03.D5', 'zincparser', '_parse_datetime', 'zinc', catches=True)
 
 
 def _kinds(ctx, version):
